@@ -43,6 +43,9 @@ def gen_table(rng, nrows=None):
     t = 0.0
     code_na = rng.random() < 0.5
     dur_na = rng.random() < 0.3
+    # sometimes three rows in a row that agree in every categorical column, the middle one ending last
+    block_at = rng.randrange(0, n - 2) if n >= 3 and rng.random() < 0.5 else None
+    block = None
     for i in range(n):
         t += rng.choice([0.25, 0.5, 1.0, 1.5])
         dur = rng.choice(["0.5", "0.25", "1.0", "2.0"]) if not (dur_na and rng.random() < 0.3) else "n/a"
@@ -50,6 +53,11 @@ def gen_table(rng, nrows=None):
         resp = rng.choice(["left", "right", "n/a", "left"])
         code = rng.choice(["1", "2", "3", "3"]) if not (code_na and rng.random() < 0.3) else "n/a"
         val = rng.choice(["0.5", "1.25", "3.0", "7.75"])
+        if block_at is not None and block_at <= i < block_at + 3:
+            if block is None:
+                block = (tt if tt != "n/a" else "go", resp, code)
+            tt, resp, code = block
+            dur = ["0.5", "4.0", "0.25"][i - block_at]
         lines.append("\t".join([repr(t), dur, tt, resp, code, val]))
     return "\n".join(lines) + "\n"
 
